@@ -92,6 +92,22 @@ func customLine(t []string) string {
 				}); err != nil {
 					return "reg-err " + hx(err.Error())
 				}
+			case strings.HasPrefix(sp, "reerr:") || strings.HasPrefix(sp, "renil:"):
+				// handlers that fail: an error / no value at all — the evaluation must end in an error, never in a crash or a value
+				pat, ok := unhx(sp[6:])
+				if !ok {
+					return "bad-op"
+				}
+				isErr := strings.HasPrefix(sp, "reerr:")
+				if err := vm.RegCustomDice(pat, func(ctx *ds.Context, groups []string, payload any) (*ds.VMValue, string, error) {
+					log = append(log, "failing|"+strings.Join(groups, "\x1f"))
+					if isErr {
+						return nil, "", fmt.Errorf("handler says no")
+					}
+					return nil, "", nil
+				}); err != nil {
+					return "reg-err " + hx(err.Error())
+				}
 			case strings.HasPrefix(sp, "spnever:"):
 				k, _ := strconv.Atoi(sp[8:])
 				_ = vm.RegCustomDiceParser(func(ctx *ds.Context, s *ds.CustomDiceStream) (*ds.CustomDiceParseResult, error) {
